@@ -103,4 +103,425 @@ theorem RxMsg.validate_v1_iff (m : RxMsg) (hv : m.ver = 1) :
       not_true_eq_false, not_and, iff_self, true_iff] <;>
     (try split) <;> first | omega | (intros; first | contradiction | omega)
 
+theorem RxMsg.validate_iff (m : RxMsg) : m.validate = .ok () ↔ InRangeRx m := by
+  unfold RxMsg.validate InRangeRx
+  simp only [bind_ok_iff, validateCommon_iff, RxMsg.validateMeas_iff]
+  constructor
+  · rintro ⟨⟨hk, hfn, htn⟩, ⟨hr, ht⟩, rest⟩
+    exact ⟨hk, hfn, htn, hr, ht, fun hv => (validate_v0_iff m hv).mp rest,
+      fun hv => (validate_v1_iff m hv).mp rest⟩
+  · rintro ⟨hk, hfn, htn, hr, ht, h0, h1⟩
+    refine ⟨⟨hk, hfn, htn⟩, ⟨hr, ht⟩, ?_⟩
+    rcases hk with hv | hv
+    · exact (validate_v0_iff m hv).mpr (h0 hv)
+    · exact (validate_v1_iff m hv).mpr (h1 hv)
+
+/-! ### the messages as protocol-level field records (`Spec.TrxdLayout`) -/
+
+open OsmoVerif.Spec.TrxdLayout
+
+/-- the protocol-level fields of a Tx message whose attributes are all set and non-negative -/
+def TxMsg.fields? (m : TxMsg) : Option TxFields :=
+  match m.fn, m.tn, m.pwr, m.burst with
+  | some fn, some tn, some pwr, some b =>
+    if 0 ≤ m.ver ∧ 0 ≤ fn ∧ 0 ≤ tn ∧ 0 ≤ pwr then
+      some ⟨m.ver.toNat, fn.toNat, tn.toNat, pwr.toNat, b⟩
+    else none
+  | _, _, _, _ => none
+
+/-! ### gen_msg on valid messages -/
+
+theorem bytearrayAppend_ok (buf : Bytes) (x : Int) (h : 0 ≤ x ∧ x < 256) :
+    bytearrayAppend buf x = .ok (buf ++ [x.toNat]) := by
+  simp only [bytearrayAppend, h, and_self, if_true]
+
+theorem packBE32u_ok (x : Int) (h : 0 ≤ x ∧ x < 4294967296) : packBE32u x = .ok (be32 x.toNat) := by
+  simp only [packBE32u, h, and_self, if_true, be32]
+
+theorem packBE16s_ok (x : Int) (h : -32768 ≤ x ∧ x ≤ 32767) : packBE16s x = .ok (s16be x) := by
+  simp only [packBE16s, h, and_self, if_true, s16be, Except.ok.injEq, List.cons.injEq, and_true]
+  omega
+
+theorem genCommon_ok (ver fn tn : Int) (hv : ver = 0 ∨ ver = 1) (hfn : 0 ≤ fn ∧ fn ≤ 2715647)
+    (htn : 0 ≤ tn ∧ tn ≤ 7) :
+    genCommon ver (some fn) (some tn) = .ok (hdr ver.toNat tn.toNat fn.toNat) := by
+  unfold genCommon
+  simp only [need, bind, Except.bind, pure, Except.pure]
+  rw [bytearrayAppend_ok _ _ (by omega), packBE32u_ok _ (by omega)]
+  simp only [hdr, List.nil_append, List.cons_append, Except.ok.injEq, List.cons.injEq, and_true]
+  omega
+
+theorem pad_eq (ver : Int) (l : Bool) (buf : Bytes) (hv : ver = 0 ∨ ver = 1) :
+    appendLegacy ver l buf = buf ++ pad ver.toNat l := by
+  rcases hv with rfl | rfl <;> cases l <;> simp [appendLegacy, pad]
+
+/-- C04 (Tx half): a valid Tx message is encoded exactly as the protocol layout prescribes. -/
+theorem TxMsg.genMsg_layout (m : TxMsg) (l : Bool) (h : InRangeTx m) :
+    ∃ f, m.fields? = some f ∧ m.genMsg l = .ok (layoutTx f l) := by
+  have hval := (TxMsg.validate_iff m).mpr h
+  rcases m with ⟨ver, fn, tn, pwr, burst⟩
+  obtain ⟨hv, hfn, htn, hp, hb⟩ := h
+  cases fn <;> cases tn <;> cases pwr <;> cases burst <;>
+    simp only [within, burstLen148or444] at hfn htn hp hb
+  rename_i fn tn pwr b
+  have hv' : (0 : Int) ≤ ver := by rcases hv with rfl | rfl <;> omega
+  refine ⟨⟨ver.toNat, fn.toNat, tn.toNat, pwr.toNat, b⟩, ?_, ?_⟩
+  · simp only [TxMsg.fields?, hv', hfn.1, htn.1, hp.1, and_self, if_true]
+  · unfold TxMsg.genMsg
+    simp only [hval, bind, Except.bind, pure, Except.pure, genCommon_ok ver fn tn hv hfn htn,
+      TxMsg.appendHdrTo, need, bytearrayAppend_ok _ pwr (by omega), TxMsg.appendBurstTo,
+      pad_eq ver l _ hv, layoutTx, List.append_assoc]
+
+/-! ### soft-bit translation tables -/
+
+theorem tabSbit2usbit_length : Gen.Trxd.tabSbit2usbit.length = 256 := by decide +kernel
+theorem tabUsbit2sbit_length : Gen.Trxd.tabUsbit2sbit.length = 256 := by decide +kernel
+theorem tabSbit2ubit_length : Gen.Trxd.tabSbit2ubit.length = 256 := by decide +kernel
+theorem tabUbit2sbit_length : Gen.Trxd.tabUbit2sbit.length = 256 := by decide +kernel
+
+theorem translateGo_map {α : Type} (tab : List α) (f : Nat → α) (xs : Bytes)
+    (h : ∀ x ∈ xs, tab[x]? = some (f x)) : translateGo tab xs = .ok (xs.map f) := by
+  induction xs with
+  | nil => rfl
+  | cons x xs ih =>
+    have hx := h x (List.mem_cons_self ..)
+    have ih' := ih (fun y hy => h y (List.mem_cons_of_mem _ hy))
+    simp only [translateGo, hx, ih', List.map_cons]
+
+theorem translate_map {α : Type} (tab : List α) (hl : tab.length = 256) (f : Nat → α) (xs : Bytes)
+    (h : ∀ x ∈ xs, tab[x]? = some (f x)) : translate tab xs = .ok (xs.map f) := by
+  simp only [translate, hl, ne_eq, not_true_eq_false, if_false, translateGo_map tab f xs h]
+
+theorem translateGo_total {α : Type} (tab : List α) (hl : tab.length = 256) (xs : Bytes)
+    (h : ∀ x ∈ xs, x < 256) : ∃ ys, translateGo tab xs = .ok ys ∧ ys.length = xs.length := by
+  induction xs with
+  | nil => exact ⟨[], rfl, rfl⟩
+  | cons x xs ih =>
+    obtain ⟨ys, hys, hlen⟩ := ih (fun y hy => h y (List.mem_cons_of_mem _ hy))
+    have hx : x < tab.length := by have := h x (List.mem_cons_self ..); omega
+    refine ⟨tab[x] :: ys, ?_, by simp [hlen]⟩
+    simp only [translateGo, List.getElem?_eq_getElem hx, hys]
+
+theorem sbyte_lt (s : Int) : sbyte s < 256 := by unfold sbyte; omega
+
+/-- `sbit2usbit` never raises (every octet indexes the 256-entry table) -/
+theorem sbit2usbit_total (b : List Int) : ∃ u, sbit2usbit b = .ok u ∧ u.length = b.length := by
+  have hl := tabSbit2usbit_length
+  obtain ⟨ys, h1, h2⟩ := translateGo_total Gen.Trxd.tabSbit2usbit hl (b.map sbyte)
+    (by intro x hx; obtain ⟨s, _, rfl⟩ := List.mem_map.mp hx; exact sbyte_lt s)
+  refine ⟨ys, ?_, by simpa using h2⟩
+  simp only [sbit2usbit, translate, hl, ne_eq, not_true_eq_false, if_false, h1]
+
+/-- the regenerated table `_tab_sbit2usbit` is `127 - s` on every signed char -/
+theorem s2u_point_fin : ∀ k : Fin 256,
+    Gen.Trxd.tabSbit2usbit[sbyte ((k.val : Int) - 128)]? = some (softOctet ((k.val : Int) - 128)) := by
+  decide +kernel
+
+theorem s2u_point (s : Int) (h : -128 ≤ s ∧ s ≤ 127) :
+    Gen.Trxd.tabSbit2usbit[sbyte s]? = some (softOctet s) := by
+  have := s2u_point_fin ⟨(s + 128).toNat, by omega⟩
+  have e : (((s + 128).toNat : Nat) : Int) - 128 = s := by omega
+  simpa only [e] using this
+
+theorem sbit2usbit_eq (b : List Int) (h : ∀ s ∈ b, -128 ≤ s ∧ s ≤ 127) :
+    sbit2usbit b = .ok (b.map softOctet) := by
+  have hl := tabSbit2usbit_length
+  unfold sbit2usbit
+  rw [translate_map Gen.Trxd.tabSbit2usbit hl (fun x => softOctet (ubyte2s x)) (b.map sbyte)]
+  · simp only [List.map_map, Except.ok.injEq]
+    apply List.map_congr_left
+    intro s hs
+    have := h s hs
+    simp only [Function.comp, sbyte, ubyte2s]
+    congr 1
+    omega
+  · intro x hx
+    obtain ⟨s, hs, rfl⟩ := List.mem_map.mp hx
+    have hr := h s hs
+    rw [s2u_point s hr]
+    simp only [sbyte, ubyte2s, Option.some.injEq]
+    congr 1
+    omega
+
+/-! ### RxMsg: protocol-level fields, header and burst encoding -/
+
+/-- protocol-level modulation + TSC set of an MTS coding -/
+def modOf (coding set : Nat) : Option Mod :=
+  match coding with
+  | 0b0000 => some (.gmsk set)
+  | 0b0100 => some (.psk8 set)
+  | 0b0110 => some (.gmskAB set)
+  | 0b1000 => some (.qam16 set)
+  | 0b1010 => some (.qam32 set)
+  | 0b1100 => some (.aqpsk set)
+  | _ => none
+
+/-- the protocol-level fields of an Rx message whose transported attributes are all set -/
+def RxMsg.fields? (m : RxMsg) : Option RxFields :=
+  match m.fn, m.tn, m.rssi, m.toa256 with
+  | some fn, some tn, some rssi, some toa =>
+    if ¬ (0 ≤ m.ver ∧ 0 ≤ fn ∧ 0 ≤ tn) then none
+    else if m.ver = 1 then
+      match m.ci with
+      | none => none
+      | some ci =>
+        if m.nopeInd then
+          some { ver := 1, fn := fn.toNat, tn := tn.toNat, rssi := rssi, toa256 := toa,
+                 nope := true, ci := ci, soft := m.burst }
+        else
+          match m.modType, m.tscSet, m.tsc with
+          | some mod, some set, some tsc =>
+            if 0 ≤ set ∧ 0 ≤ tsc then
+              (modOf mod.coding set.toNat).map fun md =>
+                { ver := 1, fn := fn.toNat, tn := tn.toNat, rssi := rssi, toa256 := toa,
+                  nope := false, mod := md, tsc := tsc.toNat, ci := ci, soft := m.burst }
+            else none
+          | _, _, _ => none
+    else
+      some { ver := m.ver.toNat, fn := fn.toNat, tn := tn.toNat, rssi := rssi, toa256 := toa,
+             soft := m.burst }
+  | _, _, _, _ => none
+
+/-- header octets (everything before the soft bits) of the protocol layout -/
+def rxHdrLayout (f : RxFields) : List Nat :=
+  hdr f.ver f.tn f.fn ++ [(-f.rssi).toNat] ++ s16be f.toa256
+    ++ (if f.ver = 1 then [mtsOctet f] ++ s16be f.ci else [])
+
+theorem layoutRx_eq (f : RxFields) (l : Bool) :
+    layoutRx f l = rxHdrLayout f ++ (match f.soft with | some b => b.map softOctet | none => [])
+      ++ pad f.ver l := rfl
+
+/-- the MTS octet computed by `gen_mts` is the protocol's `8·(modulation bits + set) + tsc` -/
+theorem mts_fin : ∀ (mod : Modulation) (set : Fin 4) (tsc : Fin 8), (mod.coding = 0 ∨ set.val ≤ 1) →
+    (modOf mod.coding set.val).map (fun md => 8 * md.bits + tsc.val) =
+      some ((tsc.val ||| (mod.coding <<< 3)) ||| (set.val <<< 3)) := by
+  decide +kernel
+
+theorem mts_lt : ∀ (mod : Modulation) (set : Fin 4) (tsc : Fin 8),
+    ((tsc.val ||| (mod.coding <<< 3)) ||| (set.val <<< 3)) < 256 := by
+  decide +kernel
+
+theorem RxMsg.appendMts_nope (m : RxMsg) (buf : Bytes) (h : m.nopeInd = true) :
+    m.appendMts buf = .ok (buf ++ [128]) := by
+  simp only [RxMsg.appendMts, h, if_true, nopeInd_eq]
+  exact bytearrayAppend_ok buf 128 (by omega)
+
+theorem RxMsg.appendMts_ok (m : RxMsg) (buf : Bytes) (mod : Modulation) (set tsc : Int)
+    (hn : m.nopeInd = false) (hm : m.modType = some mod) (hs : m.tscSet = some set)
+    (ht : m.tsc = some tsc) (hset : 0 ≤ set ∧ set ≤ 3) (hg : mod.coding = 0 ∨ set ≤ 1)
+    (htsc : 0 ≤ tsc ∧ tsc ≤ 7) :
+    ∃ md, modOf mod.coding set.toNat = some md ∧
+      m.appendMts buf = .ok (buf ++ [8 * md.bits + tsc.toNat]) := by
+  have hf := mts_fin mod ⟨set.toNat, by omega⟩ ⟨tsc.toNat, by omega⟩ (by
+    rcases hg with h | h
+    · exact Or.inl h
+    · exact Or.inr (by simp only; omega))
+  have hlt := mts_lt mod ⟨set.toNat, by omega⟩ ⟨tsc.toNat, by omega⟩
+  simp only at hf hlt
+  cases hmd : modOf mod.coding set.toNat with
+  | none => simp only [hmd, Option.map_none, reduceCtorEq] at hf
+  | some md =>
+    simp only [hmd, Option.map_some, Option.some.injEq] at hf
+    refine ⟨md, rfl, ?_⟩
+    have e8 : (tsc % 8).toNat = tsc.toNat := by omega
+    have hneg : ¬ set < 0 := by omega
+    simp only [RxMsg.appendMts, hn, Bool.false_eq_true, if_false, hm, hs, ht, need, bind, Except.bind,
+      hneg, e8, pure, Except.pure]
+    rw [bytearrayAppend_ok _ _ (by omega), Int.toNat_natCast, hf]
+
+/-- a valid Rx message: its protocol-level fields exist and `gen_msg` emits the protocol's header
+layout, then whatever `append_burst_to` appends, then the legacy padding -/
+theorem RxMsg.genMsg_split (m : RxMsg) (l : Bool) (h : InRangeRx m) :
+    ∃ f, m.fields? = some f ∧ f.soft = m.burst ∧
+      m.genMsg l = (match m.appendBurstTo (rxHdrLayout f) with
+                    | .ok buf => .ok (buf ++ pad f.ver l)
+                    | .error e => .error e) := by
+  have hval := (RxMsg.validate_iff m).mpr h
+  rcases m with ⟨ver, fn, tn, rssi, toa, mod, nope, set, tsc, ci, burst⟩
+  obtain ⟨hv, hfn, htn, hr, ht, h0, h1⟩ := h
+  cases fn <;> cases tn <;> cases rssi <;> cases toa <;> simp only [within] at hfn htn hr ht
+  rename_i fn tn rssi toa
+  simp only at h0 h1 hv
+  have hv' : (0 : Int) ≤ ver := by rcases hv with rfl | rfl <;> omega
+  have hc := genCommon_ok ver fn tn hv hfn htn
+  have hrs := bytearrayAppend_ok (hdr ver.toNat tn.toNat fn.toNat) (-rssi) (by omega)
+  have hto := packBE16s_ok toa ht
+  rcases hv with rfl | rfl
+  · -- version 0
+    have e0 : (0 : Int).toNat = 0 := rfl
+    simp only [e0] at hc hrs
+    refine ⟨{ ver := 0, fn := fn.toNat, tn := tn.toNat, rssi := rssi, toa256 := toa, soft := burst }, ?_, rfl, ?_⟩
+    · simp only [RxMsg.fields?, hfn.1, htn.1, Int.le_refl, and_self, not_true_eq_false, if_false,
+        show ¬ ((0 : Int) = 1) by omega, Int.toNat_zero]
+    · unfold RxMsg.genMsg
+      simp only [hval, bind, Except.bind, hc, RxMsg.appendHdrTo, need, hrs, hto,
+        show ¬ ((0 : Int) ≥ 1) by omega, if_false, pure, Except.pure, rxHdrLayout, Int.toNat_zero,
+        show ¬ ((0 : Nat) = 1) by omega, List.append_nil]
+      cases RxMsg.appendBurstTo _ _ with
+      | error e => rfl
+      | ok buf => simp only [pad_eq 0 l buf (Or.inl rfl), Int.toNat_zero]
+  · -- version 1
+    have e1 : (1 : Int).toNat = 1 := rfl
+    simp only [e1] at hc hrs
+    obtain ⟨hci, hrest⟩ := h1 rfl
+    cases ci <;> simp only [within] at hci
+    rename_i ci
+    have hcp := packBE16s_ok ci (by omega)
+    cases nope
+    · -- a burst with MTS information
+      simp only [Bool.false_eq_true, if_false, InRangeMts] at hrest
+      obtain ⟨mod', rfl⟩ : ∃ x, mod = some x := by
+        cases mod with
+        | none => exact hrest.elim
+        | some x => exact ⟨x, rfl⟩
+      have hrest' : (if mod'.coding = 0 then within 0 3 set else within 0 1 set) ∧ within 0 7 tsc ∧
+          burstLenOfMod mod'.coding burst := hrest
+      clear hrest
+      obtain ⟨hset, htsc, hbl⟩ := hrest'
+      obtain ⟨set', rfl⟩ : ∃ x, set = some x := by
+        cases set with
+        | none => split at hset <;> exact hset.elim
+        | some x => exact ⟨x, rfl⟩
+      obtain ⟨tsc', rfl⟩ : ∃ x, tsc = some x := by
+        cases tsc with
+        | none => exact htsc.elim
+        | some x => exact ⟨x, rfl⟩
+      simp only [within] at htsc
+      have hset' : (0 ≤ set' ∧ set' ≤ 3) ∧ (mod'.coding = 0 ∨ set' ≤ 1) := by
+        split at hset <;> simp only [within] at hset
+        · exact ⟨hset, Or.inl (by assumption)⟩
+        · exact ⟨by omega, Or.inr hset.2⟩
+      obtain ⟨md, hmd, hmts⟩ := RxMsg.appendMts_ok
+        ⟨1, some fn, some tn, some rssi, some toa, some mod', false, some set', some tsc', some ci, burst⟩
+        (hdr 1 tn.toNat fn.toNat ++ [(-rssi).toNat] ++ s16be toa) mod' set' tsc' rfl rfl rfl rfl
+        hset'.1 hset'.2 htsc
+      simp only [List.append_assoc] at hmts
+      refine ⟨{ ver := 1, fn := fn.toNat, tn := tn.toNat, rssi := rssi, toa256 := toa, nope := false,
+                mod := md, tsc := tsc'.toNat, ci := ci, soft := burst }, ?_, rfl, ?_⟩
+      · simp only [RxMsg.fields?, hfn.1, htn.1, hset'.1.1, htsc.1, and_self, not_true_eq_false, if_false,
+          if_true, Bool.false_eq_true, hmd, Option.map_some, show (0 : Int) ≤ 1 by omega]
+      · unfold RxMsg.genMsg
+        simp only [hval, bind, Except.bind, hc, RxMsg.appendHdrTo, need, hrs, hto,
+          show ((1 : Int) ≥ 1) by omega, if_true, pure, Except.pure, hmts, hcp, rxHdrLayout, mtsOctet, List.append_assoc,
+          Bool.false_eq_true, if_false, show (1 : Int).toNat = 1 by rfl]
+        cases RxMsg.appendBurstTo _ _ with
+        | error e => rfl
+        | ok buf => simp only [pad_eq 1 l buf (Or.inr rfl), show (1 : Int).toNat = 1 by rfl]
+    · -- NOPE indication
+      have hmts := RxMsg.appendMts_nope
+        ⟨1, some fn, some tn, some rssi, some toa, mod, true, set, tsc, some ci, burst⟩
+        (hdr 1 tn.toNat fn.toNat ++ [(-rssi).toNat] ++ s16be toa) rfl
+      simp only [List.append_assoc] at hmts
+      refine ⟨{ ver := 1, fn := fn.toNat, tn := tn.toNat, rssi := rssi, toa256 := toa, nope := true,
+                ci := ci, soft := burst }, ?_, rfl, ?_⟩
+      · simp only [RxMsg.fields?, hfn.1, htn.1, and_self, not_true_eq_false, if_false, if_true,
+          show (0 : Int) ≤ 1 by omega]
+      · unfold RxMsg.genMsg
+        simp only [hval, bind, Except.bind, hc, RxMsg.appendHdrTo, need, hrs, hto,
+          show ((1 : Int) ≥ 1) by omega, if_true, pure, Except.pure, hmts, hcp, rxHdrLayout, mtsOctet, List.append_assoc,
+          show (1 : Int).toNat = 1 by rfl]
+        cases RxMsg.appendBurstTo _ _ with
+        | error e => rfl
+        | ok buf => simp only [pad_eq 1 l buf (Or.inr rfl), show (1 : Int).toNat = 1 by rfl]
+
+theorem RxMsg.appendBurstTo_total (m : RxMsg) (buf : Bytes) :
+    ∃ u, m.appendBurstTo buf = .ok (buf ++ u) := by
+  unfold RxMsg.appendBurstTo
+  cases m.burst with
+  | none => exact ⟨[], by simp⟩
+  | some b =>
+    obtain ⟨u, hu, _⟩ := sbit2usbit_total b
+    exact ⟨u, by simp only [hu, bind, Except.bind, pure, Except.pure]⟩
+
+theorem RxMsg.appendBurstTo_eq (m : RxMsg) (buf : Bytes) (hw : m.WellTyped) :
+    m.appendBurstTo buf =
+      .ok (buf ++ (match m.burst with | some b => b.map softOctet | none => [])) := by
+  unfold RxMsg.appendBurstTo
+  cases hb : m.burst with
+  | none => simp
+  | some b =>
+    have := sbit2usbit_eq b (hw b (by simp [hb]))
+    simp only [this, bind, Except.bind, pure, Except.pure]
+
+/-- a valid Rx message is always encoded (no exception) -/
+theorem RxMsg.genMsg_ok (m : RxMsg) (l : Bool) (h : InRangeRx m) : ∃ b, m.genMsg l = .ok b := by
+  obtain ⟨f, _, _, hg⟩ := RxMsg.genMsg_split m l h
+  obtain ⟨u, hu⟩ := RxMsg.appendBurstTo_total m (rxHdrLayout f)
+  exact ⟨_, by rw [hg, hu]⟩
+
+/-- C04 (Rx half): a valid Rx message is encoded exactly as the protocol layout prescribes. -/
+theorem RxMsg.genMsg_layout (m : RxMsg) (l : Bool) (h : InRangeRx m) (hw : m.WellTyped) :
+    ∃ f, m.fields? = some f ∧ m.genMsg l = .ok (layoutRx f l) := by
+  obtain ⟨f, hf, hs, hg⟩ := RxMsg.genMsg_split m l h
+  refine ⟨f, hf, ?_⟩
+  rw [hg, RxMsg.appendBurstTo_eq m _ hw, layoutRx_eq, hs]
+
+/-! ### `validate` raises nothing but ValueError -/
+
+theorem validateCommon_err (ver : Int) (fn tn : Option Int) (e : Exc)
+    (h : validateCommon ver fn tn = .error e) : e = .valueError := by
+  unfold validateCommon at h
+  cases fn <;> cases tn <;> simp only [] at h <;> (repeat' split at h) <;> simp_all
+
+theorem TxMsg.validate_err (m : TxMsg) (e : Exc) (h : m.validate = .error e) : e = .valueError := by
+  unfold TxMsg.validate at h
+  cases hc : validateCommon m.ver m.fn m.tn with
+  | error e' =>
+    simp only [hc, bind, Except.bind, Except.error.injEq] at h
+    exact h ▸ validateCommon_err _ _ _ _ hc
+  | ok u =>
+    simp only [hc, bind, Except.bind] at h
+    unfold TxMsg.validateOwn at h
+    cases hp : m.pwr <;> cases hb : m.burst <;> simp only [hp, hb] at h <;> (repeat' split at h) <;> simp_all
+
+theorem RxMsg.validateMeas_err (m : RxMsg) (e : Exc) (h : m.validateMeas = .error e) :
+    e = .valueError := by
+  unfold RxMsg.validateMeas at h
+  cases hr : m.rssi <;> cases ht : m.toa256 <;> simp only [hr, ht] at h <;>
+    (repeat' split at h) <;> simp_all
+
+theorem RxMsg.validateMts_err (m : RxMsg) (e : Exc) (h : m.validateMts = .error e) :
+    e = .valueError := by
+  unfold RxMsg.validateMts at h
+  cases hm : m.modType <;> cases hs : m.tscSet <;> cases ht : m.tsc <;> simp only [hm, hs, ht] at h <;>
+    (repeat' split at h) <;> simp_all
+
+theorem RxMsg.validateCi_err (m : RxMsg) (e : Exc) (h : m.validateCi = .error e) :
+    e = .valueError := by
+  unfold RxMsg.validateCi at h
+  cases hc : m.ci <;> simp only [hc] at h <;> (repeat' split at h) <;> simp_all
+
+/-- `self.mod_type.bl` in `_validate_burst_v1` is only reached after the modulation was checked -/
+theorem RxMsg.validateBurst_err (m : RxMsg) (e : Exc) (hm : m.validateMts = .ok ())
+    (h : m.validateBurst = .error e) : e = .valueError := by
+  unfold RxMsg.validateBurst RxMsg.validateBurstV0 RxMsg.validateBurstV1 at h
+  unfold RxMsg.validateMts at hm
+  cases hn : m.nopeInd <;> cases hmod : m.modType <;> cases hb : m.burst <;>
+    simp only [hn, hmod, hb] at h hm <;> (repeat' split at h) <;> simp_all
+
+theorem RxMsg.validate_err (m : RxMsg) (e : Exc) (h : m.validate = .error e) : e = .valueError := by
+  unfold RxMsg.validate at h
+  cases h1 : validateCommon m.ver m.fn m.tn with
+  | error e' =>
+    simp only [h1, bind, Except.bind, Except.error.injEq] at h
+    exact h ▸ validateCommon_err _ _ _ _ h1
+  | ok u =>
+    cases h2 : m.validateMeas with
+    | error e' =>
+      simp only [h1, h2, bind, Except.bind, Except.error.injEq] at h
+      exact h ▸ RxMsg.validateMeas_err _ _ h2
+    | ok u =>
+      cases h3 : m.validateMts with
+      | error e' =>
+        simp only [h1, h2, h3, bind, Except.bind, Except.error.injEq] at h
+        exact h ▸ RxMsg.validateMts_err _ _ h3
+      | ok u =>
+        cases h4 : m.validateCi with
+        | error e' =>
+          simp only [h1, h2, h3, h4, bind, Except.bind, Except.error.injEq] at h
+          exact h ▸ RxMsg.validateCi_err _ _ h4
+        | ok u =>
+          simp only [h1, h2, h3, h4, bind, Except.bind] at h
+          exact RxMsg.validateBurst_err m e h3 h
+
 end OsmoVerif.Trxd
